@@ -1215,7 +1215,10 @@ class Sum(Expression):
         return self
 
     def _get_key(self):  # type:ignore
-        return 1, *self.expression._get_key()  # type:ignore
+        # the ranges take part in the key: two sums over the same expression with
+        # different ranges must not tie, or their order in a product is the input order
+        ranges = tuple(_variable_sort_key(r) for r in self._get_sorted_ranges())
+        return 1, *self.expression._get_key(), ranges  # type:ignore
 
     def _get_sorted_ranges(self) -> Sequence[Variable]:
         return sorted(self.ranges, key=attrgetter("name"))
